@@ -232,6 +232,8 @@ def decOp : Sexp → Option Op
   | Sexp.list [Sexp.atom "append", Sexp.atom y, a, v, Sexp.atom nc] => do pure (.append y (← decArg a) (← decArg v) (← nc.toNat?))
   | Sexp.list [Sexp.atom "len", a] => (decArg a).map Op.len
   | Sexp.list [Sexp.atom "del", a, k] => do pure (.delete (← decArg a) (← decArg k))
+  | Sexp.list [Sexp.atom "load", Sexp.atom y, a, i] => do pure (.load y (← decArg a) (← decArg i))
+  | Sexp.list [Sexp.atom "swap", Sexp.atom x, i, j] => do pure (.swap x (← decArg i) (← decArg j))
   | _ => none
 
 def showV (h : Heap) : Nat → V → String
@@ -257,7 +259,7 @@ def handle (args : List Sexp) : String :=
   | none => "bad-args"
   | some ops =>
     let r := ops.foldl (fun (acc : Heap × List String) op =>
-      let st := acc.1.step op
+      let st := acc.1.step2 op
       (st.1, acc.2 ++ [showOut st.1 op st.2])) (Heap.empty, [])
     let vars := (r.1.vars.map (fun kv => kv.1 ++ "=" ++ showV r.1 5 kv.2)).toArray.qsort (· < ·)
     " | ".intercalate r.2 ++ " || " ++ " ".intercalate vars.toList
